@@ -3,6 +3,7 @@ C10 — step 2: in exact arithmetic the interpolation as written (`interpG`, whi
 shown to use) is the truncating integer division `interp` the theorems of Props/C10 are about.
 -/
 import F1Verif.Props.RefineC10
+import F1Verif.Props.RefineC10S
 import Mathlib.Data.Rat.Floor
 import Mathlib.Algebra.Order.Floor.Ring
 import Mathlib.Tactic.FieldSimp
@@ -57,5 +58,33 @@ theorem ramp_rateFn_refines_exact (r : Ramp) (hd : 0 < r.duration) (t0 : Option 
   split
   · rfl
   · rw [interpG_rat _ _ hd]
+
+/-- with positive stage durations the calculator step in exact arithmetic is the model's `Calc.rate` -/
+theorem rateWith_interpG_rat (c : Calc) (hd : ∀ st ∈ c.rest, 0 < st.d) (now : Int) :
+    c.rateWith (interpG (F := Rat)) now = c.rate now := by
+  unfold Calc.rate Calc.rateWith
+  obtain ⟨taken, ht⟩ := skip_suffix c.rest (c.start.getD now) now
+  simp only []
+  rcases hsk : (skip c.rest (c.start.getD now) now).1 with _ | ⟨st, rem⟩
+  · rfl
+  · have hmem : st ∈ c.rest := by rw [ht, hsk]; simp
+    simp only [interpG_rat st _ (hd st hmem)]
+
+/-- C10 (staged) about the code as it is now, exact arithmetic: one call of the regenerated `RateCalculator.Rate` returns
+the model's `Calc.rate` — so every theorem of Props/C10 about sequences of `Calc.rate` queries (value within 1 of the
+configured line, monotone within a stage, 0 after the last stage, zero-length stages skipped) speaks about this code -/
+theorem staged_Rate_refines_exact (pre rest : List Stage) (hd : ∀ st ∈ rest, 0 < st.d) (fresh : Bool) (start now : Int)
+    (fuel : Nat) (hf : rest.length + 1 ≤ fuel) (hfresh : fresh = true → pre = []) :
+    let cur : Int := if fresh then -1 else pre.length
+    let c : Calc := ⟨rest, if fresh = true ∧ start = 0 then none else some start⟩
+    observe (runFn (noExtF (F := Rat)) fuel F1.Generated.MG.staged_Rate (calcState (pre ++ rest) cur start now))
+        ["recv.current", "recv.start"] =
+      some ([.int (c.rate now).1],
+            [some (.int (((pre ++ rest).length : Int) - (c.rate now).2.rest.length)), some (.int ((c.rate now).2.start.getD 0))]) := by
+  intro cur c
+  have h := staged_Rate_refines (F := Rat) pre rest fresh start now fuel hf hfresh
+  simp only [] at h
+  rw [rateWith_interpG_rat _ hd] at h
+  exact h
 
 end F1.Props.Refine
